@@ -1592,6 +1592,341 @@ def r17_3(prog, rep, rid='R17.3'):
 
 
 # ------------------------------------------------------------------------------
+# R17.4   client and agent agree on the usable cores / gpus per node
+#
+class Poly:
+    """polynomial with numeric coefficients over opaque atoms:
+    {sorted tuple of atoms: coefficient}"""
+
+    def __init__(self, terms=None):
+        self.t = {k: v for k, v in (terms or {}).items() if v != 0}
+
+    @staticmethod
+    def const(c):
+        return Poly({(): c})
+
+    @staticmethod
+    def atom(a):
+        return Poly({(a,): 1})
+
+    def __add__(self, o):
+        t = dict(self.t)
+        for k, v in o.t.items():
+            t[k] = t.get(k, 0) + v
+        return Poly(t)
+
+    def __neg__(self):
+        return Poly({k: -v for k, v in self.t.items()})
+
+    def __sub__(self, o):
+        return self + (-o)
+
+    def __mul__(self, o):
+        t = {}
+        for k1, v1 in self.t.items():
+            for k2, v2 in o.t.items():
+                k = tuple(sorted(k1 + k2, key=repr))
+                t[k] = t.get(k, 0) + v1 * v2
+        return Poly(t)
+
+    def __eq__(self, o):
+        return self.t == o.t
+
+    def __ne__(self, o):
+        return self.t != o.t
+
+    def show(self):
+        def name(a):
+            if a[0] == 'len':
+                return 'len(%s)' % a[1].split(':', 1)[-1]
+            if a[0] == 'expr':
+                return a[1]
+            if a[0] == 'free':
+                return a[1]
+            return str(a[1]) if len(a) > 1 else str(a)
+        out = []
+        for k, v in sorted(self.t.items(), key=repr):
+            m = '*'.join(short(name(a), 40) for a in k)
+            if not k:
+                out.append('%s' % v)
+            elif v == 1:
+                out.append(m)
+            elif v == -1:
+                out.append('-' + m)
+            else:
+                out.append('%s*%s' % (v, m))
+        return ' + '.join(out).replace('+ -', '- ') or '0'
+
+
+class SymEval:
+    """straight-line symbolic evaluation of numeric locals of one function
+    over reaching definitions, at the *generic point*: a conditional update
+    whose only extra guards are truth tests of plain names (`if x and smt:
+    x *= smt`, `if avail and blocked: avail -= len(blocked)`) is taken - it is
+    skipped only when one of the quantities is zero / empty.  Everything the
+    evaluator does not understand becomes an opaque atom (same text and same
+    reaching definitions => same value); control shapes it does not understand
+    raise UNRECOGNISED-IDIOM."""
+
+    def __init__(self, f):
+        self.f  = f
+        self.g  = cfg_of(f)
+        self.rd = ReachingDefs(self.g)
+        self._guards = {}
+        self._memo = {}
+
+    def guards(self, nid):
+        if nid not in self._guards:
+            self._guards[nid] = set(guards(self.g, nid))
+        return self._guards[nid]
+
+    def _generic(self, d, at):
+        """definition d is conditional (relative to node `at`) only on truth
+        tests of plain names / attribute paths"""
+        for tid, lab in self.guards(d) - self.guards(at):
+            a = self.g.nodes[tid].ast
+            if lab == 'T' and isinstance(a, (ast.Name, ast.Attribute)):
+                continue
+            raise AnalysisError('UNRECOGNISED-IDIOM %s: `%s` is updated under '
+                                'the condition `%s` (%s) - not a plain '
+                                '"quantity is known / list is non-empty" test'
+                                % (self.f.where, short(self.g.nodes[d].ast),
+                                   short(a), lab))
+
+    def pick(self, name, nid):
+        """the definition of `name` in force at the entry of node nid"""
+        defs = sorted(self.rd.reaching(nid, name))
+        if not defs:
+            return None
+        if len(defs) == 1:
+            return defs[0]
+        g = self.g
+        reach = {d: g.reachable([e.dst for e in g.succ[d]], no_back=True)
+                 for d in defs}
+        order = sorted(defs, key=lambda d: sum(1 for o in defs
+                                               if o != d and d in reach[o]))
+        for i, d in enumerate(order):
+            for later in order[i + 1:]:
+                if later not in reach[d]:
+                    raise AnalysisError(
+                        'UNRECOGNISED-IDIOM %s: definitions of %r reaching '
+                        '`%s` are not a chain of conditional updates'
+                        % (self.f.where, name, short(g.nodes[nid].ast)))
+        last = order[-1]
+        self._generic(last, nid)
+        return last
+
+    def value(self, name, nid, depth=0):
+        key = (name, nid)
+        if key in self._memo:
+            return self._memo[key]
+        if depth > 30:
+            raise AnalysisError('UNRECOGNISED-IDIOM %s: cyclic definition of '
+                                '%r' % (self.f.where, name))
+        d = self.pick(name, nid)
+        if d is None:
+            out = Poly.atom(('free', name))
+        else:
+            n = self.g.nodes[d]
+            a = n.ast
+            if n.kind == 'stmt' and isinstance(a, ast.Assign) and \
+                    len(a.targets) == 1 and isinstance(a.targets[0], ast.Name):
+                out = self.poly(a.value, d, depth + 1)
+            elif n.kind == 'stmt' and isinstance(a, ast.AugAssign) and \
+                    isinstance(a.target, ast.Name):
+                out = self.combine(a.op, self.value(name, d, depth + 1),
+                                   self.poly(a.value, d, depth + 1), a)
+            else:
+                out = Poly.atom(('def', d))
+        self._memo[key] = out
+        return out
+
+    def combine(self, op, l, r, node):
+        if isinstance(op, ast.Add):
+            return l + r
+        if isinstance(op, ast.Sub):
+            return l - r
+        if isinstance(op, ast.Mult):
+            return l * r
+        return None
+
+    def cfg_key(self, name, nid):
+        """'blocked_cores' if `name` is bound (single definition) to
+        <x>.get('blocked_cores', ..) / <x>['blocked_cores']"""
+        defs = self.rd.reaching(nid, name)
+        if len(defs) != 1:
+            return None
+        a = self.g.nodes[next(iter(defs))].ast
+        if not isinstance(a, ast.Assign):
+            return None
+        v = a.value
+        if isinstance(v, ast.Call) and isinstance(v.func, ast.Attribute) and \
+                v.func.attr == 'get' and v.args and \
+                isinstance(v.args[0], ast.Constant) and \
+                isinstance(v.args[0].value, str):
+            return v.args[0].value
+        if isinstance(v, ast.Subscript) and isinstance(v.slice, ast.Constant) \
+                and isinstance(v.slice.value, str):
+            return v.slice.value
+        return None
+
+    def opaque(self, expr, nid, depth):
+        names = sorted({x.id for x in walk(expr) if isinstance(x, ast.Name)
+                        and isinstance(x.ctx, ast.Load)})
+        ids = []
+        for nm in names:
+            d = self.rd.reaching(nid, nm)
+            ids.append((nm, tuple(sorted(d))))
+        return Poly.atom(('expr', unparse(expr), tuple(ids)))
+
+    def poly(self, expr, nid, depth=0):
+        if isinstance(expr, ast.Constant) and \
+                isinstance(expr.value, (int, float)) and \
+                not isinstance(expr.value, bool):
+            return Poly.const(expr.value)
+        if isinstance(expr, ast.Name):
+            return self.value(expr.id, nid, depth + 1)
+        if isinstance(expr, ast.BinOp):
+            l = self.poly(expr.left, nid, depth + 1)
+            r = self.poly(expr.right, nid, depth + 1)
+            out = self.combine(expr.op, l, r, expr)
+            if out is not None:
+                return out
+            return self.opaque(expr, nid, depth)
+        if isinstance(expr, ast.UnaryOp) and isinstance(expr.op, ast.USub):
+            return -self.poly(expr.operand, nid, depth + 1)
+        if isinstance(expr, ast.Call) and call_name(expr) == 'len' and \
+                len(expr.args) == 1 and isinstance(expr.args[0], ast.Name):
+            k = self.cfg_key(expr.args[0].id, nid)
+            if k:
+                return Poly.atom(('len', 'key:' + k))
+        return self.opaque(expr, nid, depth)
+
+
+def _check_generic(ev, f, n, a):
+    for tid, lab in ev.guards(n.id):
+        t = ev.g.nodes[tid].ast
+        if not (lab == 'T' and isinstance(t, (ast.Name, ast.Attribute))):
+            raise AnalysisError('UNRECOGNISED-IDIOM %s: `%s` under `%s`'
+                                % (f.where, short(a), short(t)))
+
+
+def agent_delta(prog, rep, attr, written):
+    """what ResourceManager._init_from_scratch does to rm_info.<attr> after
+    having read it from the agent config: (config key read, Poly delta)"""
+    f = prog.method(RM[0], RM[1], '_init_from_scratch')
+    rep.saw(f)
+    ev = SymEval(f)
+    g = ev.g
+    key = None
+    delta = Poly()
+    for n in g.stmt_nodes():
+        if n.kind != 'stmt':
+            continue
+        a = n.ast
+        if isinstance(a, ast.Assign):
+            for t in a.targets:
+                if isinstance(t, ast.Attribute) and t.attr == attr and \
+                        isinstance(t.value, ast.Name):
+                    d = dotted(a.value)
+                    v = a.value
+                    if isinstance(v, ast.BinOp) and \
+                            isinstance(v.op, (ast.Add, ast.Sub)) and \
+                            unparse(v.left) == unparse(t):
+                        # x.attr = x.attr - e   (same as  x.attr -= e)
+                        _check_generic(ev, f, n, a)
+                        e = ev.poly(v.right, n.id)
+                        delta = delta - e if isinstance(v.op, ast.Sub) \
+                            else delta + e
+                    elif d.startswith('self._cfg.') and d.count('.') == 2 and \
+                            key is None:
+                        key = d.split('.')[2]
+                    elif isinstance(a.value, ast.Subscript) and \
+                            unparse(a.value.value) == 'self._cfg' and \
+                            isinstance(a.value.slice, ast.Constant) and \
+                            key is None:
+                        key = a.value.slice.value
+                    else:
+                        raise AnalysisError('UNRECOGNISED-IDIOM %s: %s'
+                                            % (f.where, short(a)))
+        elif isinstance(a, ast.AugAssign) and \
+                isinstance(a.target, ast.Attribute) and \
+                a.target.attr == attr and isinstance(a.target.value, ast.Name):
+            _check_generic(ev, f, n, a)
+            v = ev.poly(a.value, n.id)
+            if isinstance(a.op, ast.Sub):
+                delta = delta - v
+            elif isinstance(a.op, ast.Add):
+                delta = delta + v
+            else:
+                raise AnalysisError('UNRECOGNISED-IDIOM %s: %s' % (f.where,
+                                                                  short(a)))
+    if key is None:
+        raise AnalysisError('UNRECOGNISED-IDIOM %s: rm_info.%s is not read '
+                            'from self._cfg' % (f.where, attr))
+    return f, key, delta
+
+
+def r17_4(prog, rep, rid='R17.4'):
+    rep.rule(rid, 'the divisor of the node computation in _prepare_pilot '
+             'equals, as a polynomial over the configured quantities, the '
+             'usable cores (gpus) per node the agent derives from the '
+             'cores_per_node (gpus_per_node) it is handed', minimum=2)
+    f = prog.method(PMGRL[0], PMGRL[1], '_prepare_pilot')
+    ev = SymEval(f)
+    g = ev.g
+    d = Deps(f.node)
+    smap = I.stmt_node_map(g)
+    avar = _sink_var(f, 'cfg')
+    divs = [n for n in walk(f.node) if isinstance(n, ast.BinOp) and
+            isinstance(n.op, (ast.Div, ast.FloorDiv))]
+
+    def dep_on(n, key):
+        return key in d.expr_depends(n.right)
+    for what, attr, mine, other in (
+            ('cores', 'cores_per_node', 'rcfg.cores_per_node',
+             'rcfg.gpus_per_node'),
+            ('gpus', 'gpus_per_node', 'rcfg.gpus_per_node',
+             'rcfg.cores_per_node')):
+        dv = [n for n in divs if dep_on(n, mine) and not dep_on(n, other)]
+        if len(dv) != 1 or id(dv[0]) not in smap:
+            raise AnalysisError('UNRECOGNISED-IDIOM %s: expected one division '
+                                'by the %s per node, found %d'
+                                % (f.where, what, len(dv)))
+        div = dv[0]
+        dn = smap[id(div)]
+        rf, key, delta = agent_delta(prog, rep, attr, None)
+        stores = _stores_to(g, avar, key)
+        if len(stores) != 1:
+            raise AnalysisError('UNRECOGNISED-IDIOM %s: %d stores to %s[%r], '
+                                'the key %s reads rm_info.%s from'
+                                % (f.where, len(stores), avar, key, rf.qual,
+                                   attr))
+        sn, sv = stores[0]
+        D = ev.poly(div.right, dn.id)
+        A = ev.poly(sv, sn.id)
+        want = A + delta
+        rep.check(D == want, rid, f, 'usable %s per node: client divisor `%s` '
+                  '= %s  equals agent side  %s' % (what, short(div.right),
+                                                   D.show(), want.show()),
+                  construct='usable:%s' % what,
+                  message='_prepare_pilot sizes the job with %s usable %s per '
+                  'node (divisor `%s` of the node computation), while the '
+                  'agent, from agent_cfg[%r] = %s and its own adjustment in '
+                  '%s, works with %s: job size and agent view disagree, the '
+                  'node count is not the smallest covering one'
+                  % (D.show(), what, short(div.right), key, A.show(), rf.qual,
+                     want.show()), loc=f.loc(div),
+                  history='platform with smt=2, 64 cores and 16 blocked '
+                  'hardware threads per node (ornl.frontier), cores=112: the '
+                  'client computes with another number of usable cores than '
+                  'the 112 the agent offers per node and requests 2 nodes '
+                  'instead of 1' if what == 'cores' else
+                  'platform with blocked GPUs: client and agent disagree on '
+                  'the GPUs usable per node')
+
+
+# ------------------------------------------------------------------------------
 #
 def run(prog, rep, tier):
     rep.decided = ('every entry of every shipped resource_*.json, under each '
@@ -1606,7 +1941,9 @@ def run(prog, rep, tier):
         'bridges their components register are declared; in _prepare_pilot '
         'the job and the agent are fed the same node/core/GPU values, nodes '
         'are ceil(max(cores/avail, gpus/avail)) with divisors depending on '
-        'SMT and blocked lists; the agent reads the keys written.')
+        'SMT and blocked lists; the agent reads the keys written; the divisors '
+        'equal, as polynomials over the configured quantities, the usable '
+        'cores/gpus per node the agent derives from what it is handed.')
     rep.undecided = ('minimality of the node count for all numeric inputs '
         '(arithmetic is not evaluated); what the batch system makes of the '
         'job description; user-supplied resource configs in ~/.radical.')
@@ -1627,6 +1964,7 @@ def run(prog, rep, tier):
     r17_1(prog, rep, ctx)
     r17_2(prog, rep, ctx)
     r17_3(prog, rep)
+    r17_4(prog, rep)
     if tier == 'thorough':
         # sweep: every factory in the package which selects a class through a
         # dict literal (stagers, tmgr schedulers, ...) has resolvable rows
@@ -1748,6 +2086,21 @@ MUTATIONS = [
         (_PML, "            avail_gpus_per_node -= len(blocked_gpus)\n", "")]),
     dict(name='R17.3 nodes computed from the raw cores per node', rules=('R17.3',), edits=[
         (_PML, "                requested_nodes = requested_cores / avail_cores_per_node", "                requested_nodes = requested_cores / rcfg.cores_per_node")]),
+    dict(name='R17.4 SMT applied after the blocked cores were subtracted (seed C17-a)', rules=('R17.4',), edits=[
+        (_PML, "        if cores_per_node and smt:\n            cores_per_node *= smt\n\n", ""),
+        (_PML, "        if requested_nodes:\n            if not avail_cores_per_node:", "        # hardware threads are exposed as cores\n        if cores_per_node and smt:\n            cores_per_node       *= smt\n            avail_cores_per_node *= smt\n\n        if requested_nodes:\n            if not avail_cores_per_node:")]),
+    dict(name='R17.4 agent handed the usable instead of the raw cores per node', rules=('R17.4',), edits=[
+        (_PML, "        agent_cfg['cores_per_node']      = cores_per_node", "        agent_cfg['cores_per_node']      = avail_cores_per_node")]),
+    dict(name='R17.4 client subtracts the blocked gpus from the cores', rules=('R17.4',), edits=[
+        (_PML, "            avail_cores_per_node -= len(blocked_cores)\n", "            avail_cores_per_node -= len(blocked_gpus)\n")]),
+    dict(name='R17.4 hardware threads multiply the gpus as well', rules=('R17.4',), edits=[
+        (_PML, "        avail_gpus_per_node  = gpus_per_node\n", "        avail_gpus_per_node  = gpus_per_node * smt\n")]),
+    dict(name='R17.4 agent subtracts the blocked cores from its gpus', rules=('R17.4',), edits=[
+        (_RMB, "            rm_info.gpus_per_node  -= len(blocked_gpus)\n", "            rm_info.gpus_per_node  -= len(blocked_cores)\n")]),
+    dict(name='R17.4 agent no longer subtracts the blocked cores', rules=('R17.4',), edits=[
+        (_RMB, "            rm_info.cores_per_node -= len(blocked_cores)\n", "")]),
+    dict(name='R17.4 agent is handed the cores per node without SMT', rules=('R17.4',), edits=[
+        (_PML, "        agent_cfg['cores_per_node']      = cores_per_node", "        agent_cfg['cores_per_node']      = rcfg.cores_per_node")]),
     dict(name='R17.3 agent reads a key _prepare_pilot does not write', rules=('R17.3',), edits=[
         (_RMB, "        rm_info.requested_nodes  = self._cfg.nodes", "        rm_info.requested_nodes  = self._cfg.requested_nodes")]),
     dict(name='R17.3 agent takes its core count from the node key', rules=('R17.3',), edits=[
@@ -1790,6 +2143,14 @@ SILENT = [
         (_PML, "            requested_nodes = math.ceil(requested_nodes)", "            requested_nodes = int(math.ceil(requested_nodes))")]),
     dict(name='blocked cores subtracted in one expression', edits=[
         (_PML, "        avail_cores_per_node = cores_per_node\n", "        avail_cores_per_node = cores_per_node - len(blocked_cores)\n"),
+        (_PML, "        if avail_cores_per_node and blocked_cores:\n            avail_cores_per_node -= len(blocked_cores)\n            assert (avail_cores_per_node > 0)\n", "        assert (not cores_per_node or avail_cores_per_node > 0)\n")]),
+    dict(name='SMT multiplication spelled out, operands swapped', edits=[
+        (_PML, "            cores_per_node *= smt\n", "            cores_per_node = smt * cores_per_node\n")]),
+    dict(name='agent adjusts its per node figures with plain assignments', edits=[
+        (_RMB, "            rm_info.cores_per_node -= len(blocked_cores)\n            rm_info.gpus_per_node  -= len(blocked_gpus)\n",
+               "            rm_info.cores_per_node = rm_info.cores_per_node - len(blocked_cores)\n            n_blocked_gpus = len(blocked_gpus)\n            rm_info.gpus_per_node  -= n_blocked_gpus\n")]),
+    dict(name='usable cores computed in one expression on the client', edits=[
+        (_PML, "        avail_cores_per_node = cores_per_node\n", "        avail_cores_per_node = cores_per_node - len(blocked_cores) + 0\n"),
         (_PML, "        if avail_cores_per_node and blocked_cores:\n            avail_cores_per_node -= len(blocked_cores)\n            assert (avail_cores_per_node > 0)\n", "        assert (not cores_per_node or avail_cores_per_node > 0)\n")]),
     dict(name='agent reads its node count by subscript', edits=[
         (_RMB, "        rm_info.requested_nodes  = self._cfg.nodes", "        rm_info.requested_nodes  = self._cfg['nodes']")]),
